@@ -15,8 +15,12 @@ C09 — concurrent execution of a template set is race-free and equals sequentia
 3. Instantiation with the API model (Model/Tmpl/Api.lean): `apiExecute` splits into a critical section and
    `textExecute`; the stability conditions are PROVED for the read-only calls and for executions of templates that are
    already analysed or already failed (`C09_settled_partial`); for concurrent FIRST executions they amount to
-   "commit never rewrites the tree of an analysed template", which is stated (`C09_frozen_statement`) and checked on
-   every run by the race detector and the per-call comparison of tools/racer, not proved.
+   "no later analysis changes what an analysed template executes". That is PROVED for every reachable state in
+   `Proofs/Frozen.lean` (`C09_frozen_reachable`, `settled_after_own_analysis`, `apiExecute_frozen`,
+   `apiExecuteTemplate_frozen`: an invariant over the escaper state preserved by every critical section, successful or
+   failed, with pending edits left behind by failed analyses). The literal, unrestricted statement
+   (`C09_frozen_statement`, all worlds) is false for hand-made unreachable worlds (`Frozen.C09_frozen_statement_false`).
+   The proof attempt found a genuine defect first (an analysis error lost through the memo, repaired in d3401ea).
 -/
 import SafeHtml.Model.Conc
 import SafeHtml.Generated.LockFacts
@@ -126,9 +130,9 @@ theorem C09_settled_partial {S R1 R : Type} :
 -- (An Execute of an analysed template changes nothing but the `escaped` flag, which is already set after the first
 -- execution of the set: `C06.C06_repeat_ok`, `C06.C06_exec_ok_keeps_text`.)
 
-/-- what remains for concurrent FIRST executions: the trees an analysed template executes are never rewritten by a
-    later analysis in the same set (then `textExecute` of an analysed template is stable under every later critical
-    section, which is `Stable.post_stable` for the API model) -/
+/-- the stability condition for concurrent FIRST executions, quantified over ALL worlds: what an analysed template
+    executes is not changed by a later analysis in the same set. For reachable worlds this is
+    `Proofs.Frozen.C09_frozen_reachable`; over all worlds it is false (`Proofs.Frozen.C09_frozen_statement_false`). -/
 def C09_frozen_statement : Prop :=
   ∀ (w w' : World) (ns : Nat) (other : String) (o : TObj) (d : Value),
     o.ns = ns → o.status = .ok → o.registered = true →
